@@ -9,13 +9,14 @@
       1 push.call(v)   2 push.ret      3 pop.call    4 pop.ret(some, v)
       5 bulk.call      6 bulk.ret(len) 7 bulk.item(i, v)  (the items, in order, before bulk.ret)
       8 len.call       9 len.ret(l)   10 empty.call 11 empty.ret(b)   12 peek.call  13 peek.ret(some, v)
+     14 plen.call     15 plen.ret(l)   (len() called by the thread that pushes)
    sites:
      20 BlockNode::set slot.write (val = push index, obj = the slot)
      21 alloc_node first.store#0   22 alloc_node last_head.store   23 alloc_node first.store#1
      24 push tail.next.store       25 push tail.block.store        26 push tail.index.store
      30 pop tail.index.load  31 pop head.next.load  32 pop head.block.store  33 pop head.index.store
      40 .. 43 the same four sites of bulk_pop        50 peek tail.index.load
-     60 len head.index.load  61 len tail.index.load
+     60 len head.index.load  61 len tail.index.load   (producer's transitions if that thread logged plen.call)
 
    Accesses without a hook are taken together with the preceding recorded event of the same
    thread, which is where the baton scheduler executes them: the unsync_load of head.block in
@@ -34,12 +35,13 @@ Variable B : nat.
 
 Record aux := { ren : list (Z * nat);      (* block address <-> block id *)
                 sob : list (Z * nat);      (* slot object <-> block id * B + offset *)
-                pact : Z;                  (* the thread inside push (0: nobody) *)
+                pact : Z;                  (* the thread inside a producer-side call (0: nobody) *)
+                pkind : nat;               (* 1 push, 2 len *)
                 cact : Z;                  (* the thread inside a consumer call *)
                 ccall : nat;               (* 0 none, 1 pop, 2 bulk_pop, 3 len, 4 is_empty, 5 peek *)
                 nitems : nat }.            (* bulk items reported so far *)
 Definition ast := (st * aux)%type.
-Definition aux0 := {| ren := []; sob := []; pact := 0%Z; cact := 0%Z; ccall := 0; nitems := 0 |}.
+Definition aux0 := {| ren := []; sob := []; pact := 0%Z; pkind := 0; cact := 0%Z; ccall := 0; nitems := 0 |}.
 Definition a_init : ast := (init, aux0).
 
 Fixpoint lookup (l : list (Z * nat)) (a : Z) : option nat :=
@@ -60,7 +62,7 @@ Definition bind_ptr (l : list (Z * nat)) (a : Z) (b : nat) : option (list (Z * n
 Definition ppc_eqb (a b : ppc) : bool :=
   match a, b with
   | PIdle, PIdle | PWrite, PWrite | PRec1, PRec1 | PRdHead, PRdHead | PStLH, PStLH | PRec2, PRec2
-  | PLink, PLink | PSetT, PSetT | PPub, PPub => true
+  | PLink, PLink | PSetT, PSetT | PPub, PPub | PLenH, PLenH | PLenT, PLenT => true
   | _, _ => false end.
 Definition cpc_eqb (a b : cpc) : bool :=
   match a, b with
@@ -70,11 +72,11 @@ Definition cpc_eqb (a b : cpc) : bool :=
 Definition op_eqb (a b : op) : bool :=
   match a, b with OPop, OPop | OBulk, OBulk | OPeek, OPeek | OLen, OLen => true | _, _ => false end.
 
-Definition set_ren x l := {| ren := l; sob := sob x; pact := pact x; cact := cact x; ccall := ccall x; nitems := nitems x |}.
-Definition set_sob x l := {| ren := ren x; sob := l; pact := pact x; cact := cact x; ccall := ccall x; nitems := nitems x |}.
-Definition set_pact x a := {| ren := ren x; sob := sob x; pact := a; cact := cact x; ccall := ccall x; nitems := nitems x |}.
-Definition set_call x a n := {| ren := ren x; sob := sob x; pact := pact x; cact := a; ccall := n; nitems := 0 |}.
-Definition set_items x n := {| ren := ren x; sob := sob x; pact := pact x; cact := cact x; ccall := ccall x; nitems := n |}.
+Definition set_ren x l := {| ren := l; sob := sob x; pact := pact x; pkind := pkind x; cact := cact x; ccall := ccall x; nitems := nitems x |}.
+Definition set_sob x l := {| ren := ren x; sob := l; pact := pact x; pkind := pkind x; cact := cact x; ccall := ccall x; nitems := nitems x |}.
+Definition set_pact x a k := {| ren := ren x; sob := sob x; pact := a; pkind := k; cact := cact x; ccall := ccall x; nitems := nitems x |}.
+Definition set_call x a n := {| ren := ren x; sob := sob x; pact := pact x; pkind := pkind x; cact := a; ccall := n; nitems := 0 |}.
+Definition set_items x n := {| ren := ren x; sob := sob x; pact := pact x; pkind := pkind x; cact := cact x; ccall := ccall x; nitems := n |}.
 
 (* if [pre] holds take the model transitions [acts] (all must be enabled), require [post] of the
    resulting state and let [nx] update the acceptor's own bookkeeping (None: inconsistent) *)
@@ -112,8 +114,8 @@ Definition accept_ev (sx : ast) (e : list Z) : option ast :=
     match code with
     (* ---- API level ---- *)
     | 1 => fin s (ppc_eqb (pp p) PIdle && Z.eqb (pact x) 0 && Z.leb 0 v && Z.ltb 0 a) [Push (Z.to_nat v)]
-               (fun _ => true) (fun _ => Some (set_pact x a))
-    | 2 => fin s (ppc_eqb (pp p) PIdle && inp a && Z.ltb 0 a) [] (fun _ => true) (fun _ => Some (set_pact x 0))
+               (fun _ => true) (fun _ => Some (set_pact x a 1%nat))
+    | 2 => fin s (ppc_eqb (pp p) PIdle && inp a && Nat.eqb (pkind x) 1 && Z.ltb 0 a) [] (fun _ => true) (fun _ => Some (set_pact x 0 0%nat))
     | 3 => fin s (cpc_eqb (cp c) CIdle && Nat.eqb (ccall x) 0) [Pop] (fun _ => true) (fun _ => Some (set_call x a 1%nat))
     | 4 => fin s (cpc_eqb (cp c) CIdle && inc a 1%nat && op_eqb (cop c) OPop &&
                   (if znz o then match cacc c with [r] => zn r v | _ => false end else isnil (cacc c)))
@@ -135,6 +137,8 @@ Definition accept_ev (sx : ast) (e : list Z) : option ast :=
     | 13 => fin s (cpc_eqb (cp c) CIdle && inc a 5%nat && op_eqb (cop c) OPeek &&
                    (if znz o then match cacc c with [r] => zn r v | _ => false end else isnil (cacc c)))
                [] (fun _ => true) (fun _ => Some (set_call x 0 0%nat))
+    | 14 => fin s (ppc_eqb (pp p) PIdle && Z.eqb (pact x) 0 && Z.ltb 0 a) [PLen] (fun _ => true) (fun _ => Some (set_pact x a 2%nat))
+    | 15 => fin s (ppc_eqb (pp p) PIdle && inp a && Nat.eqb (pkind x) 2 && zn (pres p) v) [] (fun _ => true) (fun _ => Some (set_pact x 0 0%nat))
     (* ---- push ---- *)
     | 20 => fin s (ppc_eqb (pp p) PWrite && inp a && zn (tidx m) v)
                 (if at_end B (S (tidx m)) && Nat.eqb (first m) (lasth m) then [PStep; PStep] else [PStep])
@@ -157,8 +161,12 @@ Definition accept_ev (sx : ast) (e : list Z) : option ast :=
     | 33 => fin s (at_c CCommit OPop && inc a 1%nat) [CStep] (fun s' => zn (hidx (M s')) v) (fun _ => Some x)
     | 43 => fin s (at_c CCommit OBulk && inc a 2%nat) [CStep] (fun s' => zn (hidx (M s')) v) (fun _ => Some x)
     (* ---- len / is_empty ---- *)
-    | 60 => fin s (at_c CLenH OLen && (inc a 3%nat || inc a 4%nat)) [CStep] (fun s' => zn (clh (C s')) v) (fun _ => Some x)
-    | 61 => fin s (at_c CLenT OLen && (inc a 3%nat || inc a 4%nat) && zn (tidx m) v) [CStep] (fun _ => true) (fun _ => Some x)
+    | 60 => if inp a && Nat.eqb (pkind x) 2
+            then fin s (ppc_eqb (pp p) PLenH) [PStep] (fun s' => zn (plenh (P s')) v) (fun _ => Some x)
+            else fin s (at_c CLenH OLen && (inc a 3%nat || inc a 4%nat)) [CStep] (fun s' => zn (clh (C s')) v) (fun _ => Some x)
+    | 61 => if inp a && Nat.eqb (pkind x) 2
+            then fin s (ppc_eqb (pp p) PLenT && zn (tidx m) v) [PStep] (fun _ => true) (fun _ => Some x)
+            else fin s (at_c CLenT OLen && (inc a 3%nat || inc a 4%nat) && zn (tidx m) v) [CStep] (fun _ => true) (fun _ => Some x)
     | _ => None
     end
   | _ => None
